@@ -276,4 +276,6 @@ def check(ctx, R):
     R.run("C03.e", c17.rule_c, ctx, "C03.e")
     R.run("C03.f", c17.rule_d, ctx, "C03.f")
     R.run("C03.g", rule_g, ctx)
+    from . import preds
+    R.run("C03.p", lambda R, c: preds.rule(R, c, "C03.p", ["adjacent_left", "adjacent_right", "item_contains", "slice_contains_id"]), ctx)
     return {}
